@@ -23,6 +23,8 @@ How values that cross a function boundary are judged (the analysis is per functi
     activation began): the analysis ignores the effect of calls -> kind callee-nonlocal-write (genuine; the
     defined-on-entry variant is observable: the converter clobbers the variable with Undefined).
 Implicit exceptions (NameError / TypeError ...) end the checking of that run.
+A missing last writer whose value travelled along the loop-exit edge of a `for` that binds the same variable is
+the recorded finding D1 and is reported as known-D1 (the default space avoids it; a witness run is always made).
 
 usage: c06_lastwriter.py <seed> <tier> [--k K] [--random N] [--avoid D1,D2,D6]
 """
@@ -180,7 +182,9 @@ def check_run(an, p, log):
         d = gen_def(an, p, wsid, name, reader)
         if d is None or not any(x is d for x in defs):
           wn = an.nodes[wsid]
-          fails.append(dict(kind='lastwriter-missing', sig='%s' % type(wn).__name__, var=name,
+          d1 = dfinstr.crosses_for_exit(an, log, name, act, wtime, time)
+          fails.append(dict(kind='known-D1' if d1 else 'lastwriter-missing',
+                            sig='for-target-killed-on-exit-edge' if d1 else '%s' % type(wn).__name__, var=name,
                             stmt=W(), writer=dfinstr.text(wn),
                             what='the definition of %s made by "%s" reaches the read in "%s" at run time but is '
                                  'not in its DEFINITIONS (%d attached)' % (name, dfinstr.text(wn), W(), len(defs))))
@@ -239,7 +243,7 @@ def check_program(item):
   try:
     an = dfinstr.analyse(src)
   except Exception as e:
-    res['error'] = dict(kind='analysis-error', sig=type(e).__name__, what='%s: %s' % (type(e).__name__, str(e)[:200]))
+    res['error'] = dfinstr.analysis_error(src, e)
     return res
   try:
     p = dfinstr.instrument(src)
@@ -327,7 +331,7 @@ def main():
         f['detail'] = '%s:%s' % (f['kind'], f['sig'])
         f['kind'], f['sig'] = 'known-D1', 'for-target-killed-on-exit-edge'
       key = '%s:%s' % (f['kind'], f['sig'])
-      counts[key] = counts.get(key, 0) + 1
+      counts.setdefault(key, set()).add(r['idx'])
       body = src[src.index('def f('):]
       f['program'] = body
       if key not in best or len(body) < len(best[key]['program']):
@@ -337,7 +341,7 @@ def main():
   failures = []
   for key in sorted(best):
     f = best[key]
-    f['programs_failing'] = counts[key]
+    f['programs_failing'] = len(counts[key])
     failures.append(f)
   harness.emit(dict(
       evaluated=checked, runs=runs, programs=len(items), skeleton_programs=nskel, random_programs=nrand,
